@@ -209,7 +209,7 @@ class C20(Prop):
     def extract(self, ctx):
         from .. import core
         from ..extract import py2lean_genome
-        return py2lean_genome.run(core.REPO, core.LEAN, core.write_if_changed)
+        return py2lean_genome.run(core.REPO, core.LEAN, core.write_if_changed, module=getattr(self, "m", None))
 
     # --- generation ------------------------------------------------------------------------------------
     VALPOOL = [0, 1, 1, 2, 3, 5, 7, 100, 101, 102, 103, 104, 105]
